@@ -59,6 +59,92 @@ def handleLfqA (j : Json) : R Json := do
     ("matrix", ofList (ofList ofInt) (C11.denseMatrix n a.system)),
     ("lfq", lfqJ)])
 
+/-- `[peptide, charge, rawFile, experiment, fraction, [num,den], [[num,den]…], "nan" | [num,den]]` -/
+def jevrow (j : Json) : R C11.EvRow := do
+  match j with
+  | .arr #[p, c, raw, e, f, i, sl, q] =>
+    let pep ← match q with
+      | .str "nan" => pure none
+      | _ => do pure (some (← jrat q))
+    pure { peptide := ← jstr p, charge := ← jint c, rawFile := ← jstr raw, experiment := ← jstr e,
+           fraction := ← jint f, intensity := ← jrat i, silac := ← jlist jrat sl, pep := pep }
+  | _ => .error s!"expected [peptide, charge, raw, experiment, fraction, intensity, silac, pep], got {j.compress}"
+
+def jdesignLine (j : Json) : R (String × String × Int) := do
+  match j with
+  | .arr #[nm, e, f] => pure (← jstr nm, ← jstr e, ← jint f)
+  | _ => .error s!"expected [name, experiment, fraction], got {j.compress}"
+
+def ofStageA (n : Nat) (a : C11.StageA) (lfqJ : Json) : List (String × Json) := [
+    ("keys", ofList (fun k => Json.arr #[.str k.1, ofInt k.2]) a.keys),
+    ("cols", ofList (ofList ofRat) a.cols),
+    ("total", ofRat a.total),
+    ("validCols", ofList ofNat a.validCols),
+    ("eqs", ofList ofPairEq a.eqs),
+    ("seen", ofList ofNat a.system.seen),
+    ("zeroCols", ofList ofNat a.system.zeroCols),
+    ("matrix", ofList (ofList ofInt) (C11.denseMatrix n a.system)),
+    ("lfq", lfqJ)]
+
+/-- `{"op":"lfqTable","channels":C,"tmt":T,"design":null|[[name,experiment,fraction]…],"groups":[[evidence row…]…],
+     "cutoff":R,"minr":…,"stab":bool,"graph":null|[[i,j]…],"minSamples":…,"solutions":[null|[R…]…]}` →
+    the experiment list, the LFQ header names, and per protein group stage A on the labelled samples, the LFQ
+    intensities (zeroing + `_scaleEqualSum` of the supplied solution) and the named columns `[[header, value]…]`
+    as the written table pairs them -/
+def handleLfqTable (j : Json) : R Json := do
+  let C ← jnat (← jget j "channels")
+  let tmt ← jint (← jget j "tmt")
+  let design ← match jgetOpt j "design" with
+    | none => pure none
+    | some d => do pure (some (← jlist jdesignLine d))
+  let groups ← jlist (jlist jevrow) (← jget j "groups")
+  let cutoff ← jrat (← jget j "cutoff")
+  let minr ← jnat (← jget j "minr")
+  let stab ← jbool (← jget j "stab")
+  let graph ← match jgetOpt j "graph" with
+    | none => pure none
+    | some g => do pure (some (← jlist jpair g))
+  let minSamples ← jnat (← jget j "minSamples")
+  let sols ← jlist (fun s => match s with
+    | .null => pure none
+    | _ => do pure (some (← jlist jrat s))) (← jget j "solutions")
+  match C11.silacChannels C with
+  | none => pure (ofErr "silac_channels")
+  | some chans =>
+  let exps := C11.experimentsOf design groups.flatten
+  let n := exps.length
+  let ns := C11.numSamples n C
+  let o : C11.Opts := { n := n, cutoff := cutoff, minRatios := minr, stab := stab, graph := graph, minSamples := minSamples }
+  let valid := C11.lfqValid n tmt
+  let rec go : List (List C11.EvRow) → List (Option (List Rat)) → R (List Json)
+    | [], _ => pure []
+    | g :: gs, ss => do
+      match C11.toRows design exps g with
+      | none => .error "design_key"
+      | some rows =>
+        let a := C11.tableStageA o C rows
+        let v : Option (Nat → Rat) := match ss.head? with
+          | some (some sol) => some (fun s => sol.getD s 0)
+          | _ => if a.system.pairs.isEmpty then some (fun _ => 0) else none
+        let (lfqJ, namedJ) : Json × Json := match v with
+          | none => (Json.null, Json.null)
+          | some v =>
+            let f := C11.lfq ns a.system.zeroCols a.total v
+            (ofList ofRat ((List.range ns).map f),
+             if valid then ofList (fun hv => Json.arr #[.str (String.ofList hv.1), ofRat hv.2])
+               (C11.namedColumns chans (exps.map String.toList) f) else Json.arr #[])
+        let rest ← go gs ss.tail
+        pure (obj (ofStageA ns a lfqJ ++ [("named", namedJ)]) :: rest)
+  match go groups sols with
+  | .error e => pure (ofErr e)
+  | .ok gj =>
+    pure (obj [
+      ("experiments", ofList Json.str exps),
+      ("valid", Json.bool valid),
+      ("headers", if valid then ofList (fun h => Json.str (String.ofList h)) (C11.lfqHeaders chans (exps.map String.toList))
+                  else Json.arr #[]),
+      ("groups", Json.arr gj.toArray)])
+
 /-- protocol handlers of property C11: (op name, handler) -/
-def handlersC11 : List (String × (Json → R Json)) := [("lfqA", handleLfqA)]
+def handlersC11 : List (String × (Json → R Json)) := [("lfqA", handleLfqA), ("lfqTable", handleLfqTable)]
 end PgFdr.Driver
